@@ -706,6 +706,35 @@ theorem close_inv {s s' : WState} {cat : Obj} {info : Option Obj} {tr : List (By
               (fun st h0 => by simp [emit, n2] at h0), by simp [emit]; rw [o2, o1]⟩
           · simp at h
 
+/-- a failing `OpenStream` changes nothing but `nextRef` -/
+theorem openStreamFail_fields {s s' : WState} {num gen : Nat} (h : openStreamFail s num gen = .ok s') :
+    s.stm = none ∧ s.xref.get num = none ∧ ∃ n, s.nextRef ≤ n ∧ num < n ∧ s' = { s with nextRef := n } := by
+  unfold openStreamFail at h
+  split at h
+  · simp at h
+  · rename_i hs
+    split at h
+    · simp at h
+    · rename_i x n hset
+      obtain ⟨hnone, _, hn1, hn2⟩ := setXRef_ok hset
+      simp only [Except.ok.injEq] at h
+      exact ⟨hs, hnone, n, hn1, hn2, h.symm⟩
+
+/-- an operation the model refuses leaves the state as it was -/
+theorem rejected_fields {s s' : WState} {op : Op} (h : step s (.rejected op) = .ok s') : s' = s := by
+  simp only [step] at h
+  split at h
+  · simp only [Except.ok.injEq] at h; exact h.symm
+  · simp at h
+
+theorem openStreamFail_inv {s s' : WState} {num gen : Nat} (hi : Inv s) (h : openStreamFail s num gen = .ok s') :
+    Inv s' ∧ s'.opts = s.opts := by
+  obtain ⟨_, _, n, hn1, _, rfl⟩ := openStreamFail_fields h
+  refine ⟨⟨hi.pos_eq, hi.entries, hi.patch, ?_, by have := hi.npos; simp only; omega⟩, rfl⟩
+  intro k e hg
+  have := hi.below k e hg
+  simp only; omega
+
 theorem step_inv {s s' : WState} {op : Op} (hi : Inv s) (h : step s op = .ok s') : Inv s' ∧ s'.opts = s.opts := by
   cases op with
   | alloc =>
@@ -723,6 +752,8 @@ theorem step_inv {s s' : WState} {op : Op} (hi : Inv s) (h : step s op = .ok s')
   | closeStream => obtain ⟨a, _, b⟩ := streamClose_inv hi h; exact ⟨a, b⟩
   | writeCompressed items raw => exact writeCompressed_inv hi h
   | close cat info tr raw => exact close_inv hi h
+  | openStreamFail num gen => exact openStreamFail_inv hi h
+  | rejected op => rw [rejected_fields h]; exact ⟨hi, rfl⟩
 
 theorem run_inv (ops : List Op) : ∀ {s s' : WState} {i : Nat}, Inv s → run s ops i = .ok s' → Inv s' := by
   induction ops with
@@ -1096,6 +1127,10 @@ theorem step_mono {s s' : WState} {op : Op} (h : step s op = .ok s') : Mono s s'
   | closeStream => exact streamClose_mono h
   | writeCompressed items raw => exact writeCompressed_mono h
   | close cat info tr raw => exact close_mono h
+  | openStreamFail num gen =>
+    obtain ⟨_, _, n, _, _, rfl⟩ := openStreamFail_fields h
+    exact Mono.of_eq rfl
+  | rejected op => rw [rejected_fields h]; exact Mono.refl s
 
 theorem run_mono (ops : List Op) : ∀ {s s' : WState} {i : Nat}, run s ops i = .ok s' → Mono s s' := by
   induction ops with
@@ -1132,5 +1167,24 @@ example : (match initState exOpts with
       | .error (i, _) => i == 3
       | _ => false)
     | none => false) = true := by decide +kernel
+
+/-- **openStream_fail_no_entry.**  An `OpenStream` that fails after entering its cross-reference
+entry leaves no entry behind: the table, the output, the position, the open-stream state and the
+queue are what they were; only `nextRef` may have been pushed past the number.  In particular the
+number can be defined afterwards (the retry is not refused as a second definition), and nothing
+points at the bytes written next. -/
+theorem openStream_fail_no_entry {s s' : WState} {num gen : Nat} (h : step s (.openStreamFail num gen) = .ok s') :
+    s'.xref = s.xref ∧ s'.xref.get num = none ∧ s'.out = s.out ∧ s'.pos = s.pos ∧ s'.stm = none ∧
+      s'.after = s.after ∧ s.nextRef ≤ s'.nextRef ∧ num < s'.nextRef := by
+  obtain ⟨hs, hnone, n, hn1, hn2, rfl⟩ := openStreamFail_fields (show openStreamFail s num gen = .ok s' from h)
+  exact ⟨rfl, hnone, rfl, rfl, hs, rfl, hn1, hn2⟩
+
+/-- after the failure the same number can be opened again -/
+theorem openStream_retry_after_fail {s s1 : WState} {num gen : Nat} {d : List (Bytes × Obj)} {ul : Option Int}
+    (h : step s (.openStreamFail num gen) = .ok s1) : ∃ s2, openStream s1 num gen d ul = .ok s2 := by
+  obtain ⟨hs, hnone, n, _, _, rfl⟩ := openStreamFail_fields (show openStreamFail s num gen = .ok s1 from h)
+  unfold openStream
+  simp only [hs]
+  simp [setXRef, hnone]
 
 end PdfVerif.C02fiob
